@@ -153,12 +153,34 @@ class CropAroundMonitor(taps.Monitor):
     """crop_to_pointcloud / crop_to_pointcloud_proportion: the block between floor(min - pad) and ceil(max + pad) of the
     point cloud's bounds, pad = boundary resp. proportion x (smallest | largest) per-axis range - with crop's boundary contract."""
 
-    def __init__(self, proportion):
+    def __init__(self, proportion, landmarks=False):
         self.proportion = proportion
-        self.name = "crop_to_pointcloud" + ("_proportion" if proportion else "")
+        self.landmarks = landmarks
+        self.name = ("crop_to_landmarks" if landmarks else "crop_to_pointcloud") + ("_proportion" if proportion else "")
 
     def pre(self, ctx, args, kw):
         im = args[0]
+        if self.landmarks:
+            # the landmark-group wrappers: the same contract around the points of the named group
+            # signatures: (group=None, boundary=0, constrain, rt) / (boundary_proportion, group=None, minimum=True, constrain, rt)
+            if not taps.is_menpo(im) or not im.has_landmarks:
+                return None
+            if self.proportion:
+                names_ = ["boundary_proportion", "group", "minimum", "constrain_to_boundary", "return_transform"]
+            else:
+                names_ = ["group", "boundary", "constrain_to_boundary", "return_transform"]
+            vals_ = {"group": None, "boundary": 0, "minimum": True, "constrain_to_boundary": True, "return_transform": False}
+            vals_.update(dict(zip(names_, args[1:])))
+            vals_.update(kw)
+            try:
+                pc = im.landmarks[vals_["group"]]
+            except Exception:
+                return None
+            if self.proportion:
+                args = (im, pc, vals_.get("boundary_proportion"), vals_["minimum"], vals_["constrain_to_boundary"], vals_["return_transform"])
+            else:
+                args = (im, pc, vals_["boundary"], vals_["constrain_to_boundary"], vals_["return_transform"])
+            kw = {}
         pc = args[1] if len(args) > 1 else kw.get("pointcloud")
         if not taps.is_menpo(im) or not taps.is_menpo(pc) or pc.n_dims != im.n_dims or not np.isfinite(pc.points).all():
             return None
@@ -341,6 +363,8 @@ def setup(ctx):
     taps.tap(ctx, I, "crop", CropMonitor())
     taps.tap(ctx, I, "crop_to_pointcloud", CropAroundMonitor(False))
     taps.tap(ctx, I, "crop_to_pointcloud_proportion", CropAroundMonitor(True))
+    taps.tap(ctx, I, "crop_to_landmarks", CropAroundMonitor(False, landmarks=True))
+    taps.tap(ctx, I, "crop_to_landmarks_proportion", CropAroundMonitor(True, landmarks=True))
     taps.tap(ctx, I, "extract_patches", PatchMonitor())
     taps.tap(ctx, I, "set_patches", SetPatchesMonitor())
 
@@ -400,7 +424,7 @@ def w_crop(ctx, rng, i):
         lo = lo + rng.uniform(0, 0.99, d); hi = np.maximum(hi - rng.uniform(0, 0.99, d), lo + 0.01)
         if rng.random() < 0.3:
             lo[ax] = -rng.uniform(0.1, 2.5)
-    cons = bool(rng.random() < (0.25 if strip else 0.5))
+    cons = gen.flag(rng, 0.25 if strip else 0.5)          # (spelled True/False, as a numpy bool, as 1/0)
     rt = bool(rng.random() < 0.3)
     try:
         if rng.random() < 0.5:
@@ -442,8 +466,8 @@ def w_crop(ctx, rng, i):
             except ValueError:
                 pass
             ctx.tap("crop_to_true_mask_boundary_contract", "checked")
-    ctx.count_case(("crop", cls, d, np.dtype(dt).name, kind, cons, rt, nonfinite, strip), nontrivial=True,
-                   sample={"cls": cls, "shape": list(shp), "min": lo.tolist(), "max": hi.tolist(), "constrain": cons} if i < 5 else None)
+    ctx.count_case(("crop", cls, d, np.dtype(dt).name, kind, bool(cons), rt, nonfinite, strip), nontrivial=True,
+                   sample={"cls": cls, "shape": list(shp), "min": lo.tolist(), "max": hi.tolist(), "constrain": bool(cons)} if i < 5 else None)
 
 
 def coord_image(rng, shp, C, dtype=np.float64):
